@@ -324,8 +324,20 @@ def discharge_one(job):
     t0 = time.time()
     try:
         inst = lemmas.instantiate(assumptions + [goal], templates=templates)
-        query, consts = solver.build_query(decls, assumptions + inst, goal, ufs)
-        r = solver.solve(query, consts, timeout=timeout, want_model=True)
+        r = None
+        if any(a.op == "#forall" for a in assumptions) and kind != "reach":
+            # first attempt without the quantified assumptions (their ground instances are kept): a weaker set of
+            # assumptions, so `unsat` is still a proof; quantifier-free queries are fast and stable
+            qf = [a for a in assumptions if a.op != "#forall"]
+            query, consts = solver.build_query(decls, qf + inst, goal, ufs)
+            r = solver.solve(query, consts, timeout=min(timeout, 8), want_model=False)
+            r["qf_attempt"] = True
+            if r["verdict"] != "unsat":
+                first_log = r["log"]
+                r = None
+        if r is None:
+            query, consts = solver.build_query(decls, assumptions + inst, goal, ufs)
+            r = solver.solve(query, consts, timeout=timeout, want_model=True)
         r["name"] = name
         r["kind"] = kind
         r["n_lemmas"] = len(inst)
